@@ -175,6 +175,17 @@ def shape(p):
     return s.replace("|", "/")
 
 
+def second_instance():
+    """Another, differently configured generator exists in the process (public constructor
+    arguments; what it generates is the user's business and is not judged).  Default-configured
+    generators created afterwards must be unaffected."""
+    g = RegexGenerator(Random(), alphabet={"digits": "0123456789abcdef", "word": "ab-", "letters": "ab~"}, max_repeat=3)
+    try:
+        g.generate("\\d\\w[^a]")
+    except Exception:  # noqa: BLE001
+        pass
+
+
 def worker(shard, nshards, tier, seed):
     acc = Acc()
     b = BOUNDS[tier]
@@ -188,15 +199,26 @@ def worker(shard, nshards, tier, seed):
             jobs.append(("sup", p, mr))
     for p in uns:
         jobs.append(("uns", p, 32))
+    # the same atoms, and every pattern that draws from an alphabet, again after a second
+    # generator instance with its own alphabet has been created (run last in every shard, so
+    # that all jobs above see a process in which no such instance ever existed)
+    jobs2 = [("atom2", a, 32) for a in ATOMS]
+    jobs2 += [("sup2", p, 32) for p in sup if any(x in p for x in ("\\d", "\\w", "[", "."))]
+    mine = [jobs[i] for i in range(shard, len(jobs), nshards)] \
+        + [jobs2[i] for i in range(shard, len(jobs2), nshards)]
     rng_full = e2.Scripted(seed, full_choice=True)
     rng = e2.Scripted(seed)
-    for i in range(shard, len(jobs), nshards):
-        kind, p, mr = jobs[i]
+    for i, (kind, p, mr) in enumerate(mine):
         acc.count("programs")
-        if kind == "atom":
+        if kind.endswith("2"):
+            second_instance()
+        if kind in ("atom", "atom2"):
             with e2.installed(rng_full):
                 found, info = run_pattern(rng_full, p, mr, True, dict(b, full_cap=5000), acc)
             acc.count("atom_pass_exhaustive", int(info["exhaustive"]))
+        elif kind == "sup2":
+            with e2.installed(rng):
+                found, info = run_pattern(rng, p, mr, True, dict(b, D=b["D_other"]), acc)
         else:
             with e2.installed(rng):
                 found, info = run_pattern(rng, p, mr, kind == "sup", b, acc)
@@ -205,8 +227,9 @@ def worker(shard, nshards, tier, seed):
             acc.violation(f"C09|{k}|{shape(p)}|max_repeat={mr}",
                           {"pattern": p, "max_repeat": mr, "supported": kind != "uns",
                            "script": [list(x) for x in script], "detail": detail, "kind": k,
-                           "tier": tier, "seed": seed, "atom_pass": kind == "atom"})
-        if i % 1009 == 0:
+                           "tier": tier, "seed": seed, "atom_pass": kind.startswith("atom"),
+                           "second_instance": kind.endswith("2")})
+        if (i * nshards + shard) % 1009 == 0:
             acc.sample({"pattern": p, "max_repeat": mr, "executions": info["executions"],
                         "whole_tree": info["exhaustive"]})
     return acc
@@ -225,6 +248,7 @@ def run(tier, seed):
                 "deviations (atoms: every index of every draw); distinct = (pattern, generated string)",
         "exhaustive": not acc.caps,
         "bounds": dict(BOUNDS[tier], tier=tier, supported=acc.n["patterns_sup"] // len(MAX_REPEATS),
+                       after_second_generator_instance=acc.n["patterns_sup2"] + acc.n["patterns_atom2"],
                        unsupported=acc.n["patterns_uns"], atoms=len(ATOMS)),
     }
     return acc, cov, ["negated classes with an empty complement, anchors in the middle and flag groups "
@@ -236,6 +260,9 @@ def replay(case):
     acc = Acc()
     full = case.get("atom_pass", False)
     rng = e2.Scripted(case.get("seed", 0), full_choice=full)
+    if case.get("second_instance"):
+        second_instance()
+        b = dict(b, D=b["D_other"])
     with e2.installed(rng):
         found, _ = run_pattern(rng, case["pattern"], case["max_repeat"], case["supported"],
                                dict(b, full_cap=5000) if full else b, acc)
